@@ -95,6 +95,26 @@ Definition g13_v13_mtu120 : N * bool * list (N * list (N * N * N * N * N * N * N
     (5, [(0, 2, 1, 0, 120, 1174, 145); (0, 2, 1, 120, 120, 1174, 145); (0, 2, 1, 240, 120, 1174, 145); (0, 2, 1, 360, 120, 1174, 145); (0, 2, 1, 480, 120, 1174, 145); (0, 2, 1, 600, 120, 1174, 145); (0, 2, 1, 720, 120, 1174, 145); (0, 2, 1, 840, 120, 1174, 145); (0, 2, 1, 960, 120, 1174, 145); (0, 2, 1, 1080, 94, 1174, 119); (2, 8, 2, 0, 2, 2, 36); (2, 11, 3, 0, 120, 354, 154); (2, 11, 3, 120, 120, 354, 154); (2, 11, 3, 240, 114, 354, 148); (2, 15, 4, 0, 68, 68, 102); (2, 20, 5, 0, 32, 32, 66)]);
     (6, [(2, 20, 2, 0, 32, 32, 66)]);
     (7, [(3, 4, 6, 0, 53, 53, 87)])]).
+(* variant v13-ksm: (MTU, server answers the first ClientHello with a HelloRetryRequest,
+   [(flight, [(epoch, type, message_seq, fragment_offset, fragment_length, length, bytes on the wire)])]) *)
+Definition g13_v13_ksm : N * bool * list (N * list (N * N * N * N * N * N * N)) :=
+  (1200, true,
+   [(2, [(0, 1, 0, 0, 169, 169, 194)]);
+    (3, [(0, 6, 0, 0, 78, 78, 103)]);
+    (4, [(0, 1, 1, 0, 228, 228, 253)]);
+    (5, [(0, 2, 1, 0, 119, 119, 144); (2, 8, 2, 0, 2, 2, 36); (2, 11, 3, 0, 354, 354, 388); (2, 15, 4, 0, 68, 68, 102); (2, 20, 5, 0, 32, 32, 66)]);
+    (6, [(2, 20, 2, 0, 32, 32, 66)]);
+    (7, [(3, 4, 6, 0, 53, 53, 87)])]).
+(* variant v13-ksm-clientauth: (MTU, server answers the first ClientHello with a HelloRetryRequest,
+   [(flight, [(epoch, type, message_seq, fragment_offset, fragment_length, length, bytes on the wire)])]) *)
+Definition g13_v13_ksm_clientauth : N * bool * list (N * list (N * N * N * N * N * N * N)) :=
+  (1200, true,
+   [(2, [(0, 1, 0, 0, 169, 169, 194)]);
+    (3, [(0, 6, 0, 0, 78, 78, 103)]);
+    (4, [(0, 1, 1, 0, 228, 228, 253)]);
+    (5, [(0, 2, 1, 0, 119, 119, 144); (2, 8, 2, 0, 2, 2, 36); (2, 13, 3, 0, 58, 58, 92); (2, 11, 4, 0, 354, 354, 388); (2, 15, 5, 0, 68, 68, 102); (2, 20, 6, 0, 32, 32, 66)]);
+    (6, [(2, 11, 2, 0, 356, 356, 390); (2, 15, 3, 0, 68, 68, 102); (2, 20, 4, 0, 32, 32, 66)]);
+    (7, [(3, 4, 7, 0, 53, 53, 87)])]).
 (* variant v13-dualc: (MTU, server answers the first ClientHello with a HelloRetryRequest,
    [(flight, [(epoch, type, message_seq, fragment_offset, fragment_length, length, bytes on the wire)])]) *)
 Definition g13_v13_dualc : N * bool * list (N * list (N * N * N * N * N * N * N)) :=
@@ -113,4 +133,4 @@ Definition g13_v13_dualc_direct : N * bool * list (N * list (N * N * N * N * N *
     (5, [(0, 2, 0, 0, 1174, 1174, 1199); (2, 8, 1, 0, 2, 2, 36); (2, 11, 2, 0, 354, 354, 388); (2, 15, 3, 0, 68, 68, 102); (2, 20, 4, 0, 32, 32, 66)]);
     (6, [(2, 20, 1, 0, 32, 32, 66)]);
     (7, [(3, 4, 5, 0, 53, 53, 87)])]).
-Definition g13_all := [g13_v13; g13_v13_hrr; g13_v13_direct; g13_v13_clientauth; g13_v13_hrr_clientauth; g13_v13_hrr_mtu300; g13_v13_mtu300; g13_v13_hrr_clientauth_mtu450; g13_v13_mtu120; g13_v13_dualc; g13_v13_dualc_direct].
+Definition g13_all := [g13_v13; g13_v13_hrr; g13_v13_direct; g13_v13_clientauth; g13_v13_hrr_clientauth; g13_v13_hrr_mtu300; g13_v13_mtu300; g13_v13_hrr_clientauth_mtu450; g13_v13_mtu120; g13_v13_ksm; g13_v13_ksm_clientauth; g13_v13_dualc; g13_v13_dualc_direct].
